@@ -52,6 +52,23 @@ def amplifier_tight(bw_bytes: int) -> Dict[str, Any]:
     return cfg
 
 
+def without_optional_blocks() -> Dict[str, Any]:
+    """data_manipulation without the optional blocks of a scenario file (nmne_config, thresholds, io_settings): every
+    setting they carry is then a default - which must be the default of THIS game, whatever the process did before."""
+    cfg = scenarios.shipped("data_manipulation.yaml")
+    cfg["simulation"]["network"].pop("nmne_config", None)
+    cfg["game"].pop("thresholds", None)
+    # the attacker acts early and always succeeds, so that malicious traffic occurs inside a short run
+    for ag in cfg["agents"]:
+        if ag.get("type") == "red-database-corrupting-agent":
+            ag["agent_settings"].update({"start_step": 3, "frequency": 4, "variance": 0})
+    for n in cfg["simulation"]["network"]["nodes"]:
+        for app in n.get("applications", []):
+            if app.get("type") == "data-manipulation-bot":
+                app["options"].update({"port_scan_p_of_success": 1.0, "data_manipulation_p_of_success": 1.0})
+    return cfg
+
+
 def amplifier_tap() -> Dict[str, Any]:
     """Shipped UC7 with the threat actor given a choice of several starting nodes and target addresses (every
     setting that is a list is a candidate for an order that depends on the process)."""
@@ -76,6 +93,9 @@ PROFILES = [
     ("ids_short", {"profile": {"ids": "short"}}),
     ("ids_long", {"profile": {"ids": "long"}}),
     ("logs_on", {"profile": {"logs": "on"}}),
+    # another scenario (with its own NMNE settings, thresholds, airspace ...) was built and run in the process before
+    ("after_data_manipulation", {"profile": {"prelude": "data_manipulation.yaml"}}),
+    ("after_uc7", {"profile": {"prelude": "uc7_config.yaml"}}),
 ]
 
 
@@ -99,6 +119,7 @@ def main(tier: str, seed: int) -> int:
         ("amplifier_tight_2frames", {"cfg": amplifier_tight(t2)}, 3),
         ("amplifier_tight_8frames", {"cfg": amplifier_tight(t8)}, 3),
         ("amplifier_tap_start_nodes", {"cfg": amplifier_tap()}, 60),
+        ("data_manipulation_without_optional_blocks", {"cfg": without_optional_blocks()}, 78),
     ]
     if tier == "thorough":
         scen += [
